@@ -342,8 +342,9 @@ def parseAndWriteOutput(file: str, output_dir: str, config: Config,
                 with open(output_file, "w") as output:
                     output.writelines(json_string)
 
-                    if delete_after_parsing:
-                        os.remove(file)
+                # Only once the output has been flushed and closed.
+                if delete_after_parsing:
+                    os.remove(file)
             else:
                 print(f"No PEL parsed for {file}")
         except Exception as e:
